@@ -44,7 +44,7 @@ class Sym:
         return hash(('Sym', self.name))
 
 
-_PURE_BUILTINS: Dict[str, Any] = {'range': range, 'min': min, 'max': max, 'abs': abs, 'int': int, 'tuple': tuple, 'frozenset': frozenset, 'sorted': sorted}
+_PURE_BUILTINS: Dict[str, Any] = {'range': range, 'min': min, 'max': max, 'abs': abs, 'int': int, 'tuple': tuple, 'frozenset': frozenset, 'sorted': sorted, 'list': list, 'dict': dict, 'reversed': lambda x: list(reversed(list(x)))}
 
 
 class Evaluator:
@@ -167,6 +167,15 @@ class Evaluator:
                 except Exception:  # noqa: BLE001
                     return UNKNOWN
             return UNKNOWN
+        if isinstance(e, ast.Dict) and all(k is not None for k in e.keys):
+            ks = [self.ev(k) for k in e.keys]  # type: ignore[arg-type]
+            vs = [self.ev(v) for v in e.values]
+            if any(x is UNKNOWN for x in ks + vs):
+                return UNKNOWN
+            try:
+                return dict(zip(ks, vs))
+            except TypeError:
+                return UNKNOWN
         if isinstance(e, (ast.Tuple, ast.List, ast.Set)):
             vals = [self.ev(x) for x in e.elts]
             if any(v is UNKNOWN for v in vals):
